@@ -259,7 +259,315 @@ fn handle_toks(toks: &[&str]) -> Option<String> {
             let ty = parse_int_ty(toks.get(1)?)?;
             enc_int(ty, toks.get(2)?)?
         }
-        _ => return None,
+        _ => return handle_leaf(toks),
     })
 }
 
+
+//================================================================== leaf value ops
+mod leaf {
+    use super::*;
+    use bcder::decode::Constructed;
+    use bcder::string::{BitString, OctetString, Ia5String, NumericString, PrintableString, Utf8String};
+    use bcder::{Integer, Oid, Unsigned};
+    use std::collections::hash_map::DefaultHasher;
+    use std::convert::TryFrom;
+    use std::hash::{Hash, Hasher};
+    use std::str::FromStr;
+
+    pub fn hash_of<T: Hash>(t: &T) -> u64 {
+        let mut h = DefaultHasher::new();
+        t.hash(&mut h);
+        h.finish()
+    }
+
+    pub fn ord_str(o: std::cmp::Ordering) -> &'static str {
+        match o {
+            std::cmp::Ordering::Less => "lt",
+            std::cmp::Ordering::Equal => "eq",
+            std::cmp::Ordering::Greater => "gt",
+        }
+    }
+
+    pub fn integer_of(content: &[u8]) -> Option<Integer> {
+        Primitive::decode_slice(content, Mode::Der, |p| Integer::from_primitive(p)).ok()
+    }
+    pub fn unsigned_of(content: &[u8]) -> Option<Unsigned> {
+        Primitive::decode_slice(content, Mode::Der, |p| Unsigned::from_primitive(p)).ok()
+    }
+
+    fn conv<T: std::fmt::Display, E>(r: Result<T, E>) -> String {
+        match r {
+            Ok(v) => format!("{}", v),
+            Err(_) => "ovf".into(),
+        }
+    }
+
+    pub fn big_conv(i: &Integer) -> String {
+        format!(
+            "i8={} i16={} i32={} i64={} i128={} u8={} u16={} u32={} u64={} u128={}",
+            conv(i8::try_from(i)), conv(i16::try_from(i)), conv(i32::try_from(i)), conv(i64::try_from(i)),
+            conv(i128::try_from(i)), conv(u8::try_from(i)), conv(u16::try_from(i)), conv(u32::try_from(i)),
+            conv(u64::try_from(i)), conv(u128::try_from(i))
+        )
+    }
+    pub fn ubig_conv(i: &Unsigned) -> String {
+        format!(
+            "i8={} i16={} i32={} i64={} i128={} u8={} u16={} u32={} u64={} u128={}",
+            conv(i8::try_from(i)), conv(i16::try_from(i)), conv(i32::try_from(i)), conv(i64::try_from(i)),
+            conv(i128::try_from(i)), conv(u8::try_from(i)), conv(u16::try_from(i)), conv(u32::try_from(i)),
+            conv(u64::try_from(i)), conv(u128::try_from(i))
+        )
+    }
+
+    pub fn big_from(ty: IntTy, v: &str) -> Option<String> {
+        fn both<T: Copy>(v: T) -> String
+        where Integer: From<T>, Unsigned: From<T> {
+            let a = Integer::from(v);
+            let b = Unsigned::from(v);
+            if a.as_slice() != b.as_slice() {
+                return format!("DIFF {} {}", to_hex(a.as_slice()), to_hex(b.as_slice()));
+            }
+            to_hex(a.as_slice())
+        }
+        Some(format!("ok {}", match ty {
+            IntTy::I8 => to_hex(Integer::from(v.parse::<i8>().ok()?).as_slice()),
+            IntTy::I16 => to_hex(Integer::from(v.parse::<i16>().ok()?).as_slice()),
+            IntTy::I32 => to_hex(Integer::from(v.parse::<i32>().ok()?).as_slice()),
+            IntTy::I64 => to_hex(Integer::from(v.parse::<i64>().ok()?).as_slice()),
+            IntTy::I128 => to_hex(Integer::from(v.parse::<i128>().ok()?).as_slice()),
+            IntTy::U8 => both(v.parse::<u8>().ok()?),
+            IntTy::U16 => both(v.parse::<u16>().ok()?),
+            IntTy::U32 => both(v.parse::<u32>().ok()?),
+            IntTy::U64 => both(v.parse::<u64>().ok()?),
+            IntTy::U128 => both(v.parse::<u128>().ok()?),
+        }))
+    }
+
+    pub fn uns_frombytes(data: &[u8]) -> String {
+        let a = Unsigned::from_slice(data).ok().map(|u| u.as_slice().to_vec());
+        let b = Unsigned::from_bytes(Bytes::copy_from_slice(data)).ok().map(|u| u.as_slice().to_vec());
+        let c = Unsigned::try_from(Bytes::copy_from_slice(data)).ok().map(|u| u.as_slice().to_vec());
+        if a != b || b != c {
+            return "DIFF".into();
+        }
+        match a {
+            Some(v) => format!("ok {}", to_hex(&v)),
+            None => "err".into(),
+        }
+    }
+
+    /// decode one OCTET STRING from a complete encoding
+    pub fn os_of(mode: Mode, enc: &[u8]) -> Option<OctetString> {
+        mode.decode(enc, |cons| OctetString::take_from(cons)).ok()
+    }
+
+    pub fn os_views(os: &OctetString) -> String {
+        let segs: Vec<String> = os.iter().map(to_hex).collect();
+        let octets: Vec<u8> = os.octets().collect();
+        format!(
+            "segs={} bytes={} into={} len={} empty={} octets={} slice={}",
+            if segs.is_empty() { "none".into() } else { segs.join(",") },
+            to_hex(os.to_bytes().as_ref()),
+            to_hex(os.clone().into_bytes().as_ref()),
+            os.len(),
+            b01(os.is_empty()),
+            to_hex(&octets),
+            match os.as_slice() { Some(s) => to_hex(s), None => "none".into() }
+        )
+    }
+
+    pub fn os_cmp(a: &OctetString, b: &OctetString) -> String {
+        let c = a.cmp(b);
+        let pc = a.partial_cmp(b);
+        format!(
+            "cmp={} pcmp={} eq={} hasheq={}",
+            ord_str(c),
+            pc.map(ord_str).unwrap_or("none"),
+            b01(a == b),
+            b01(hash_of(a) == hash_of(b))
+        )
+    }
+
+    pub fn os_cmps(a: &OctetString, t: &[u8]) -> String {
+        let v: Vec<u8> = t.to_vec();
+        let pc: Option<std::cmp::Ordering> = a.partial_cmp(&v);
+        format!("eq={} pcmp={}", b01(*a == v), pc.map(ord_str).unwrap_or("none"))
+    }
+
+    pub fn chars_str<I: Iterator<Item = char>>(it: I) -> String {
+        let v: Vec<String> = it.map(|c| format!("{}", c as u32)).collect();
+        if v.is_empty() { "-".into() } else { v.join(",") }
+    }
+
+    pub fn cs_chars(cs: Cs, mode: Mode, enc: &[u8]) -> String {
+        macro_rules! go {
+            ($t:ty) => {{
+                match mode.decode(enc, |cons| <$t>::take_from(cons)) {
+                    Ok(s) => format!("ok chars={} disp={}", chars_str(s.chars()), to_hex(s.to_string().as_bytes())),
+                    Err(e) => err_str(&e),
+                }
+            }};
+        }
+        match cs {
+            Cs::Utf8 => go!(Utf8String),
+            Cs::Num => go!(NumericString),
+            Cs::Print => go!(PrintableString),
+            Cs::Ia5 => go!(Ia5String),
+        }
+    }
+
+    pub fn cs_fromstr(cs: Cs, text: &str) -> String {
+        macro_rules! go {
+            ($t:ty) => {{
+                let a = <$t>::from_str(text).ok();
+                let b = <$t>::from_string(text.to_string()).ok();
+                match (a, b) {
+                    (Some(a), Some(b)) => {
+                        if a != b { return "DIFF".into(); }
+                        format!("ok {} chars={}", to_hex(a.to_bytes().as_ref()), chars_str(a.chars()))
+                    }
+                    (None, None) => "err".into(),
+                    _ => "DIFF".into(),
+                }
+            }};
+        }
+        match cs {
+            Cs::Utf8 => go!(Utf8String),
+            Cs::Num => go!(NumericString),
+            Cs::Print => go!(PrintableString),
+            Cs::Ia5 => go!(Ia5String),
+        }
+    }
+
+    pub fn cs_new(cs: Cs, mode: Mode, enc: &[u8]) -> String {
+        let os = match os_of(mode, enc) { Some(o) => o, None => return "err content".into() };
+        macro_rules! go {
+            ($t:ty) => {{
+                match <$t>::new(os) {
+                    Ok(s) => format!("ok chars={}", chars_str(s.chars())),
+                    Err(_) => "err charset".into(),
+                }
+            }};
+        }
+        match cs {
+            Cs::Utf8 => go!(Utf8String),
+            Cs::Num => go!(NumericString),
+            Cs::Print => go!(PrintableString),
+            Cs::Ia5 => go!(Ia5String),
+        }
+    }
+
+    pub fn oid_show(content: &[u8]) -> String {
+        let oid = Oid(Bytes::copy_from_slice(content));
+        let arcs: Vec<String> = oid.iter().map(|c| match c.to_u32() {
+            Some(v) => format!("{}", v),
+            None => "big".into(),
+        }).collect();
+        format!("ok txt={} arcs={}", to_hex(format!("{}", oid).as_bytes()), arcs.join(","))
+    }
+
+    pub fn oid_parse(text: &str) -> String {
+        match Oid::<Bytes>::from_str(text) {
+            Ok(o) => format!("ok {}", to_hex(o.0.as_ref())),
+            Err(_) => "err".into(),
+        }
+    }
+
+    pub fn oid_eq(a: &[u8], b: &[u8]) -> String {
+        let x = Oid(Bytes::copy_from_slice(a));
+        let y = Oid(Bytes::copy_from_slice(b));
+        format!("eq={} hasheq={}", b01(x == y), b01(hash_of(&x) == hash_of(&y)))
+    }
+
+    pub fn bits_bit(unused: u8, bits: &[u8], from: usize, to: usize) -> String {
+        let b = BitString::new(unused, Bytes::copy_from_slice(bits));
+        let mut s = String::new();
+        for i in from..to {
+            s.push(if b.bit(i) { '1' } else { '0' });
+        }
+        let octs: Vec<u8> = b.octets().collect();
+        format!(
+            "len={} unused={} olen={} bits={} octets={} slice={} obytes={}",
+            b.bit_len(), b.unused(), b.octet_len(), if s.is_empty() { "-".into() } else { s },
+            to_hex(&octs), to_hex(b.octet_slice().unwrap()), to_hex(b.octet_bytes().as_ref())
+        )
+    }
+
+    #[allow(dead_code)]
+    pub fn unused(_: &mut Constructed<bcder::decode::SliceSource>) {}
+}
+
+pub fn handle_leaf(toks: &[&str]) -> Option<String> {
+    use leaf::*;
+    Some(match toks[0] {
+        "big.cmp" => {
+            let a = of_hex(toks.get(1)?)?;
+            let b = of_hex(toks.get(2)?)?;
+            match (integer_of(&a), integer_of(&b)) {
+                (Some(x), Some(y)) => format!(
+                    "cmp={} pcmp={} eq={} hasheq={}",
+                    ord_str(x.cmp(&y)), x.partial_cmp(&y).map(ord_str).unwrap_or("none"),
+                    b01(x == y), b01(hash_of(&x) == hash_of(&y))
+                ),
+                _ => "invalid".into(),
+            }
+        }
+        "big.pred" => {
+            let a = of_hex(toks.get(1)?)?;
+            match integer_of(&a) {
+                Some(x) => format!("z={} p={} n={}", b01(x.is_zero()), b01(x.is_positive()), b01(x.is_negative())),
+                None => "invalid".into(),
+            }
+        }
+        "big.conv" => {
+            let a = of_hex(toks.get(1)?)?;
+            match integer_of(&a) { Some(x) => big_conv(&x), None => "invalid".into() }
+        }
+        "ubig.conv" => {
+            let a = of_hex(toks.get(1)?)?;
+            match unsigned_of(&a) {
+                Some(x) => format!("{} z={}", ubig_conv(&x), b01(x.is_zero())),
+                None => "invalid".into(),
+            }
+        }
+        "big.from" => big_from(parse_int_ty(toks.get(1)?)?, toks.get(2)?)?,
+        "uns.frombytes" => uns_frombytes(&of_hex(toks.get(1)?)?),
+        "os.views" => {
+            let mode = parse_mode(toks.get(1)?)?;
+            match os_of(mode, &of_hex(toks.get(2)?)?) { Some(os) => format!("ok {}", os_views(&os)), None => "err content".into() }
+        }
+        "os.cmp" => {
+            let mode = parse_mode(toks.get(1)?)?;
+            match (os_of(mode, &of_hex(toks.get(2)?)?), os_of(mode, &of_hex(toks.get(3)?)?)) {
+                (Some(a), Some(b)) => format!("ok {}", os_cmp(&a, &b)),
+                _ => "err content".into(),
+            }
+        }
+        "os.cmps" => {
+            let mode = parse_mode(toks.get(1)?)?;
+            match os_of(mode, &of_hex(toks.get(2)?)?) {
+                Some(a) => format!("ok {}", os_cmps(&a, &of_hex(toks.get(3)?)?)),
+                None => "err content".into(),
+            }
+        }
+        "cs.chars" => cs_chars(parse_cs(toks.get(1)?)?, parse_mode(toks.get(2)?)?, &of_hex(toks.get(3)?)?),
+        "cs.fromstr" => {
+            let bytes = of_hex(toks.get(2)?)?;
+            let text = String::from_utf8(bytes).ok()?;
+            cs_fromstr(parse_cs(toks.get(1)?)?, &text)
+        }
+        "cs.new" => cs_new(parse_cs(toks.get(1)?)?, parse_mode(toks.get(2)?)?, &of_hex(toks.get(3)?)?),
+        "oid.show" => oid_show(&of_hex(toks.get(1)?)?),
+        "oid.parse" => {
+            let text = String::from_utf8(of_hex(toks.get(1)?)?).ok()?;
+            oid_parse(&text)
+        }
+        "oid.eq" => oid_eq(&of_hex(toks.get(1)?)?, &of_hex(toks.get(2)?)?),
+        "bits.bit" => {
+            let unused: u8 = toks.get(1)?.parse().ok()?;
+            bits_bit(unused, &of_hex(toks.get(2)?)?, toks.get(3)?.parse().ok()?, toks.get(4)?.parse().ok()?)
+        }
+        _ => return None,
+    })
+}
